@@ -405,4 +405,102 @@ theorem degR_rev (segs : List Seg) (flip : Seg → Bool) (hd : DegR segs) :
       · simp [c]
   rw [this]; exact hd p
 
+/-! ### groups do not share end points -/
+
+theorem ends_norm_count (s : Seg) (p : P) : (ends (norm s)).count p = (ends s).count p := by
+  unfold ends norm
+  cases hr : s.reversed
+  · simp
+  · simp only [if_true, List.head?_reverse, List.getLast?_reverse]
+    cases h1 : s.full.head? <;> cases h2 : s.full.getLast? <;> simp [List.count_cons]
+    omega
+
+theorem count_ends_of_norm_perm (l1 l2 : List Seg) (h : (l1.map norm).Perm (l2.map norm)) (p : P) :
+    (l1.flatMap ends).count p = (l2.flatMap ends).count p := by
+  have key : ∀ l : List Seg, (l.flatMap ends).count p = ((l.map norm).flatMap ends).count p := by
+    intro l
+    induction l with
+    | nil => rfl
+    | cons s rest ih => simp only [List.flatMap_cons, List.map_cons, List.count_append, ih, ends_norm_count]
+  rw [key l1, key l2]
+  exact (h.flatMap_right ends).count_eq p
+
+/-- every point is an end of no or of exactly two piece ends of the group -/
+def EvenG (g : List Seg) : Prop := ∀ p, (g.flatMap ends).count p = 0 ∨ (g.flatMap ends).count p = 2
+
+theorem joinAux_even : ∀ f segs acc, segs.length ≤ f → (∀ s ∈ segs, Fresh s) → DegR segs →
+    (∀ ms ∈ acc, EvenG ms) → ∀ ms ∈ joinAux f segs acc, EvenG ms := by
+  intro f
+  induction f with
+  | zero =>
+    intro segs acc h _ _ hacc
+    have : segs = [] := List.eq_nil_of_length_eq_zero (by omega)
+    subst this; simpa [joinAux] using hacc
+  | succ f ih =>
+    intro segs acc h hf hdeg hacc
+    unfold joinAux
+    split
+    · exact hacc
+    · rename_i s hs
+      have hne : segs ≠ [] := by intro e; subst e; simp at hs
+      have hsegs : segs = segs.dropLast ++ [s] := by
+        have h1 := List.dropLast_concat_getLast hne
+        have h2 : segs.getLast hne = s := by
+          have := List.getLast?_eq_some_getLast hne
+          rw [hs] at this; exact (Option.some.inj this).symm
+        rw [h2] at h1; exact h1.symm
+      have hsmem : s ∈ segs := by rw [hsegs]; simp
+      have hfd : ∀ x ∈ segs.dropLast, Fresh x := fun x hx => hf x (List.dropLast_subset segs hx)
+      have hseed := seed_chain s (hf s hsmem)
+      have hd0 : Deg [s] segs.dropLast := by
+        intro p
+        have := hdeg p
+        rw [hsegs] at this
+        rw [bd_seed s (hf s hsmem)]
+        simp only [List.flatMap_append, List.flatMap_cons, List.flatMap_nil, List.append_nil, List.count_append] at this ⊢
+        omega
+      have hlen0 : segs.dropLast.length ≤ segs.length := by simp
+      obtain ⟨hclosed, hd1⟩ := grow_closes segs.length [s] segs.dropLast hlen0 hseed hfd hd0
+      generalize hg : grow segs.length [s] segs.dropLast = g at hclosed hd1
+      obtain ⟨cur, rest⟩ := g
+      simp only at hclosed hd1 ⊢
+      obtain ⟨hp, hch, hfr, hlen1⟩ := grow_spec _ _ _ _ _ hseed hfd hg
+      have hlen : rest.length ≤ f := by
+        have h1 : (cur ++ rest).length = ([s] ++ segs.dropLast).length := by simpa using hp.length_eq
+        have h2 : 1 ≤ cur.length := by simpa using hlen1
+        simp at h1
+        have h3 : 0 < segs.length := List.length_pos_iff.mpr hne
+        omega
+      have hdr : DegR rest := by
+        intro p
+        obtain ⟨a, b, h1, h2, hb⟩ := chain_bd cur hch
+        have hab : a = b := by rw [h1, h2] at hclosed; exact Option.some.inj hclosed
+        have := hd1 p
+        rw [hb, ← hab] at this
+        simp only [List.cons_append, List.nil_append, List.count_cons, List.count_nil, beq_iff_eq] at this
+        by_cases c : a = p
+        · simp [c] at this; omega
+        · simp [c] at this; exact this
+      have hcur : EvenG cur := by
+        intro p
+        have e1 := count_ends_of_norm_perm (cur ++ rest) ([s] ++ segs.dropLast) hp p
+        have e2 : (([s] ++ segs.dropLast).flatMap ends).count p = (segs.flatMap ends).count p := by
+          have hperm : ([s] ++ segs.dropLast).Perm segs := by
+            conv => rhs; rw [hsegs]
+            exact List.perm_append_comm
+          exact (hperm.flatMap_right ends).count_eq p
+        rw [e2] at e1
+        have e0 : ((cur ++ rest).flatMap ends).count p = (cur.flatMap ends).count p + (rest.flatMap ends).count p := by
+          simp [List.flatMap_append, List.count_append]
+        rw [e0] at e1
+        have e3 := hdeg p
+        have e4 := hdr p
+        omega
+      apply ih rest (acc ++ [cur]) hlen hfr hdr
+      intro ms hms
+      rcases List.mem_append.mp hms with e | e
+      · exact hacc ms e
+      · simp at e; subst e; exact hcur
+
+
 end OsmVerif.Model.Geo
